@@ -39,7 +39,10 @@ jsonable = _jsonable
 
 
 class Result:
+    _current = None  # the accumulator most recently created in this process (salvaged by the runner if the job dies in harness code)
+
     def __init__(self):
+        Result._current = self
         self.evaluations = 0  # cases executed
         self.nontrivial = 0  # distinct & non-trivial cases (each job enumerates distinct cases)
         self.states = 0
